@@ -2,12 +2,14 @@
    PARTIAL: "only save writes" is proved for every operation sequence of the executable loader model, the
    frame of the writing primitives, of saving one Manifest and of the whole save step (only files named by
    Manifest paths can change) and the type-preserving refresh are proved for all inputs; that DIST/IGNORE/
-   TIMESTAMP and out-of-scope entries survive a whole-directory update is decided by the correspondence runs (content+mtime listings of real trees);
-   for the single-path API (update_entry_for_path) the preservation of DIST and TIMESTAMP entries is proved (Proofs/OnePath.v). *)
+   TIMESTAMP entries survive is proved for the single-path API (Proofs/OnePath.v) and for the directory update under the default
+   profile (Proofs/UpdPres.v: an invariant over the scan for unregistered Manifests, the de-duplication, the walk and the removal of
+   vanished entries); IGNORE and out-of-scope entries, and the ebuild profiles (which create Manifests during the walk), are decided by
+   the correspondence runs (content+mtime listings of real trees). *)
 From Coq Require Import List NArith ZArith Bool.
 From Gemato Require Import Py.PyStr Py.PyPath Gen.Tables Model.Entry Model.Text Model.OpenPGP Model.Hash
   Model.FS Model.Verify Model.Loader Model.Update Exec.Sx Exec.Oracles Exec.Tree.
-From Gemato Require Import Proofs.Frame Proofs.SaveAll Proofs.OnePath.
+From Gemato Require Import Proofs.Frame Proofs.SaveAll Proofs.OnePath Proofs.UpdPres.
 Import ListNotations.
 Open Scope N_scope.
 
@@ -82,3 +84,22 @@ Theorem C10_single_path_keeps_dist_timestamp : forall (L : hashlib) decompress p
              filter dt (map snd (mf_entries m')) = filter dt (map snd (mf_entries m)).
 Proof. exact update_one_path_pres. Qed.
 Print Assumptions C10_single_path_keeps_dist_timestamp.
+
+(* the directory update (update_entries_for_directory, default profile): every Manifest loaded before the call is loaded
+   afterwards with the same DIST and TIMESTAMP entries in the same order - whatever was stale, duplicated, unregistered or
+   new in the tree.  W says that entry identities are fresh and do not mix kinds; it holds for every loader the library
+   builds (C10_loader_wellformed) and is re-established by the update, so the statement chains over several updates. *)
+Theorem C10_directory_update_keeps_dist_timestamp : forall (L : hashlib) decompress pgp_verify w l path hashes lm l',
+  W l -> o_profile (l_opts l) = PDefault ->
+  update_entries_for_directory L decompress pgp_verify w l path hashes lm = Ok l' ->
+  (forall mp m, get_m l mp = Some m ->
+     exists m', get_m l' mp = Some m' /\
+                filter dt (map snd (mf_entries m')) = filter dt (map snd (mf_entries m))) /\
+  W l' /\ o_profile (l_opts l') = PDefault.
+Proof. exact update_entries_for_directory_pres. Qed.
+Print Assumptions C10_directory_update_keeps_dist_timestamp.
+
+Theorem C10_loader_wellformed : forall (L : hashlib) decompress pgp_verify w top opts ac ax l,
+  new_loader L decompress pgp_verify w top opts ac ax = Ok l -> W l /\ o_profile (l_opts l) = o_profile opts.
+Proof. exact new_loader_W. Qed.
+Print Assumptions C10_loader_wellformed.
